@@ -4,6 +4,8 @@ import PV.Spec.FirstOcc
 import PV.Model.Table
 import PV.Spec.Map
 import PV.Lemmas.Table
+import PV.Model.Substitute
+import PV.Lemmas.Substitute
 /-
 C13 — the seen-set answers membership correctly after any insertion history.
 Property theorems only; the invariant and the proofs are in PV/Lemmas/Table.lean.
@@ -70,5 +72,41 @@ theorem vocab_first_occurrences (input : List UInt8) (h0 : ∀ w ∈ vocabWords 
 example : vocabWords [98, 32, 97, 32, 32, 98, 9, 99, 10, 97] = [[98], [97], [98], [99], [97]] := by decide
 
 end Vocab
+
+section Substitute
+/-! Values stay attached to their key across growth, through a TOOL: `substitute` keeps the value of the first line of every
+    key in the hash-table entry (written through the iterator FindOrInsert returns) and must print exactly that value for
+    every later line with the key, however often the table has doubled in between. -/
+open PV.Substitute PV.Tools PV.Fields
+
+/-- all sentence keys of the well-formed lines of an input -/
+def keysOf (ls : List Line) : List Nat :=
+  ls.filterMap (fun l => match rangeFields l ranges 9 with
+    | [_, p1, _, _] => some (key p1)
+    | _ => none)
+
+/-- `substitute` through the real table model (any number of doublings) equals the table-free specification: a line whose
+    sentences were seen before is printed with the value of the FIRST line that had them; 64-bit collisions and a key hashing
+    to the invalid key 0 excepted. -/
+theorem substitute_refines (ls : List Line) (h0 : ∀ k ∈ keysOf ls, k ≠ 0) :
+    substitute ls = spec ls := by
+  apply PV.Lemmas.Substitute.substitute_spec
+  intro l hl p0 p1 p2 p3 h
+  exact h0 _ (List.mem_filterMap.2 ⟨l, hl, by rw [h]⟩)
+
+/-- a line with fewer than six fields stops the tool with an error, whatever came before (nothing is guessed) -/
+theorem short_line_is_error (pre : List Line) (l : Line) (post : List Line)
+    (hl : (rangeFields l ranges 9).length ≠ 4) :
+    spec (pre ++ l :: post) = none :=
+  PV.Lemmas.Substitute.specGo_short l post hl pre []
+
+-- non-vacuity: "a\tb\tc\td\tV1\tx", "e\tf\tc\td\tV2\ty"  ->  second line printed with V1
+example : spec [[97,9,98,9,99,9,100,9,86,49,9,120], [101,9,102,9,99,9,100,9,86,50,9,121]]
+    = some [[97,9,98,9,99,9,100,9,86,49,9,120], [101,9,102,9,99,9,100,9,86,49,9,121]] := by decide +kernel
+example : substitute [[97,9,98,9,99,9,100,9,86,49,9,120], [101,9,102,9,99,9,100,9,86,50,9,121]]
+    = some [[97,9,98,9,99,9,100,9,86,49,9,120], [101,9,102,9,99,9,100,9,86,49,9,121]] := by decide +kernel
+example : spec [[97,9,98,9,99,9,100,9,86]] = none := by decide +kernel      -- five fields
+
+end Substitute
 
 end PV.Props.C13
